@@ -122,7 +122,7 @@ def run(ctx):
     #     by every state (EarlyRetained), every honest quorum completes under fairness (Completes); the variant in which the
     #     silent symmetric-key state ignores messages is refuted on both
     MALL = ["DoStart", "DoInitiate", "DoTransition", "DoFinish", "DoDeliver"]
-    for cfg in ctx.pick(["MC_S2"], ["MC_S2", "MC_S2intruder", "MC_S3"]):
+    for cfg in ctx.pick(["MC_S2"], ["MC_S2", "MC_S2intruder"]):   # MC_S3 (3 signers, 300 k states) is kept for manual runs
         r = ctx.tlc(MSPEC, "MC_SigningMachine", cfg=cfg, coverage=True, label=cfg, timeout=ctx.pick(900, 3000))
         ctx.require_coverage(r, MALL + (["DoDeliverDup", "DoDeliverForged"] if cfg == "MC_S2" else []), cfg)
     ctx.tlc(MSPEC, "MC_SigningMachine", cfg="MC_Live", label="MC_Live", timeout=1500)
@@ -133,7 +133,7 @@ def run(ctx):
     if hz.violated != "TemporalProperty":
         ctx.broken("MC_HzSilentLive: expected Completes to be violated, got %s" % hz.violated)
     sbeh, retention, skewed = [], [], []
-    for cfg, num in ctx.pick([("Gen_S3of4", 12), ("Gen_Real", 4)], [("Gen_S3of4", 100), ("Gen_S3of5", 60), ("Gen_Real", 12)]):
+    for cfg, num in ctx.pick([("Gen_S3of4", 12), ("Gen_Real", 4)], [("Gen_S3of4", 60), ("Gen_S3of5", 40), ("Gen_Real", 12)]):
         cfg_text = None
         if cfg == "Gen_Real":
             # steer one seeded signer's schedule (see Gen_SigningMachine.Skew)
